@@ -39,7 +39,7 @@ KEY_NESTED = 'C18-function-nested-in-same-function-unclosed-parenthesis'
 
 _PAIRS = ['+ then *', '+ then /', '- then *', '- then /', '* then +', '* then -', '/ then +', '/ then -',
           '- then +', '- then -', '+ then -', '/ then *', '/ then /', '* then /']
-REQUIRED_CLASSES = (['function-argument-in-dimensionless-unit'] + ['function-argument:' + f for f in ('exp', 'log', 'log10', 'sin', 'cos', 'tan', 'sqrt', 'pow-exponent', 'pow-base')] +
+REQUIRED_CLASSES = (['equality-tolerance:inside', 'equality-tolerance:outside', 'equality-tolerance:other-unit', 'function-argument-in-dimensionless-unit'] + ['function-argument:' + f for f in ('exp', 'log', 'log10', 'sin', 'cos', 'tan', 'sqrt', 'pow-exponent', 'pow-base')] +
                     ['num-op:' + o for o in '+-*/'] + ['num-par', 'num-ref', 'num-lit', 'num-negative-literal'] +
                     ['num-fn:' + f for f in ('exp', 'pow', 'log', 'log10', 'sqrt', 'sin', 'cos', 'tan')] +
                     ['num-pair:' + p for p in _PAIRS] +
@@ -114,6 +114,7 @@ def cases(rng, tier, shard, nshards, ctx):
             from vt.props import c18_modref
             yield c18_modref.gen_dimless(rng)
             yield c18_modref.gen_fnarg(rng)
+            yield c18_modref.gen_eqtol(rng)
 
 
 def gen_num(rng):
@@ -276,6 +277,9 @@ def run_case(case, ctx):
         elif case['t'] == 'nodecmp':
             from vt.props import c18_modref
             out = c18_modref.run_nodecmp(case, ctx, parse_text)
+        elif case['t'] == 'eqtol':
+            from vt.props import c18_modref
+            out = c18_modref.run_eqtol(case, ctx, parse_text)
         elif case['t'] == 'fnarg':
             from vt.props import c18_modref
             out = c18_modref.run_fnarg(case, ctx, parse_text)
